@@ -14,6 +14,7 @@ mod ops_variant;
 mod ops_serde;
 mod ops_panic;
 mod ops_line;
+mod ops_resolver;
 mod ops_match;
 mod ops_undo;
 mod ops_lock;
@@ -32,6 +33,7 @@ const HANDLERS: &[fn(&[&str]) -> Option<String>] = &[
     ops_serde::dispatch,
     ops_panic::dispatch,
     ops_line::dispatch,
+    ops_resolver::dispatch,
     ops_match::dispatch,
     ops_undo::dispatch,
     ops_lock::dispatch,
